@@ -115,38 +115,30 @@ Definition read_back_okb (i : sinput) (bs : list oblock) : bool :=
 
 (* 32 fan-out. balanced: every internal node has between 1 and maxlinks children and all leaves are at the same depth.
    trickle: see trickle_okb. *)
-(* a trickle node made with maxDepth = d (0 = no limit): at most maxlinks leaves first, then for depth 1, 2, ... (< d) at most
-   depthRepeat sub-trees of that maxDepth; a further layer only after a complete one; sub-trees are never empty *)
 Definition is_leafb (t : tree) : bool := match t with Leaf _ => true | Node _ => false end.
 Fixpoint take_while {A} (p : A -> bool) (l : list A) : list A :=
   match l with x :: r => if p x then x :: take_while p r else [] | [] => [] end.
 Fixpoint drop_while {A} (p : A -> bool) (l : list A) : list A :=
   match l with x :: r => if p x then drop_while p r else l | [] => [] end.
 
-Fixpoint trickle_okb (fuel : nat) (ml : N) (maxd : nat) (t : tree) {struct fuel} : bool :=
+Fixpoint indexed {A} (i : nat) (l : list A) : list (nat * A) :=
+  match l with [] => [] | x :: r => (i, x) :: indexed (S i) r end.
+
+(* the boolean form of tshape (Proofs/C13_ShapeMonitor.v: trickle_okb_iff) *)
+Fixpoint trickle_okb (fuel : nat) (ml : N) (md : option nat) (t : tree) {struct fuel} : bool :=
   match fuel with
   | O => false
   | S f =>
       match t with
       | Leaf _ => false
       | Node ch =>
-          let kids := map fst ch in
-          let lv := take_while is_leafb kids in
-          let rest := drop_while is_leafb kids in
+          let lv := take_while is_leafb (map fst ch) in
+          let sub := drop_while is_leafb (map fst ch) in
           (N.of_nat (length lv) <=? ml)
-          && (match rest with [] => true | _ => N.eqb (N.of_nat (length lv)) ml end)
-          && (fix layers (d : nat) (fuel2 : nat) (l : list tree) : bool :=
-                match l with
-                | [] => true
-                | _ => match fuel2 with
-                       | O => false
-                       | S f2 =>
-                           (match maxd with O => true | _ => Nat.ltb d maxd end)
-                           && forallb (trickle_okb f ml d) (firstn depthRepeat l)
-                           && (match skipn depthRepeat l with [] => true | _ => Nat.eqb (length (firstn depthRepeat l)) depthRepeat end)
-                           && layers (S d) f2 (skipn depthRepeat l)
-                       end
-                end) 1%nat (S (length rest)) rest
+          && (match sub with [] => true | _ => N.eqb (N.of_nat (length lv)) ml end)
+          && forallb (fun ic => let d := S (fst ic / depthRepeat) in
+                                (match md with Some m => Nat.ltb d m | None => true end) && trickle_okb f ml (Some d) (snd ic))
+                     (indexed O sub)
       end
   end.
 
@@ -158,7 +150,8 @@ Definition fanout_ok_case (i : sinput) (bs : list oblock) : bool :=
       else match t with
            | Leaf [] => true                                   (* the empty file *)
            | Node [] => true
-           | _ => trickle_okb (S (height t)) (s_ml i) 0 t && forallb (fun n => match n with Node [] => false | _ => true end) (postorder t)
+           | _ => trickle_okb (S (length (chunk (s_k i) (file_of i)))) (s_ml i) None t
+                  && forallb (fun n => match n with Node [] => false | _ => true end) (postorder t)
            end
   end.
 
